@@ -60,12 +60,18 @@ def execute(cases: list[dict]) -> None:
         c["r"] = r
 
 
+def case_line_job(c: dict) -> str | None:
+    """(pool worker: CST projection only)"""
+    return _case_line(c)
+
+
 def _case_line(c: dict) -> str | None:
     r = c["r"]
     if "out" not in r:
         return None
     return json.dumps({"id": c["id"], "t0": c["text"], "inp": items(c["text"]), "out": items(r["out"]),
                        "o1": r["out"], "o2": r.get("out2", "<<second pass raised>>"),
+                       "err2": bool(r.get("err2")) and not r.get("err"),
                        "out_err": has_error_mod_tc(r["out"]), "lines": line_info(r["out"])}, ensure_ascii=False)
 
 
@@ -77,11 +83,13 @@ def judge(cases: list[dict], run: Run, shards: int = 8, label: str = "Fmt_Trace"
         judged = [c for c in cases if "out" in c["r"]]
         shards = max(1, min(shards, len(judged) // 200 + 1))
         files = []
+        all_lines = pmap("harness.engines.layout", "case_line_job",
+                         [{"id": c["id"], "text": c["text"], "r": c["r"]} for c in judged], chunk=400)
         for s in range(shards):
             f = tmp / f"shard{s}.ndjson"
             with f.open("w") as fh:
-                for c in judged[s::shards]:
-                    fh.write(_case_line(c) + "\n")
+                for ln in all_lines[s::shards]:
+                    fh.write(ln + "\n")
             files.append(f)
 
         def one(f, cfg="Fmt_Trace.cfg"):
